@@ -132,6 +132,8 @@ class Attached(Property):
         if not modobj:
             modulename = super().__get__(obj, owner)
             if not modulename:
+                if self.mandatory:
+                    raise ConfigError(f'attached module {self.name} is mandatory, but empty')
                 return None  # happens when mandatory=False and modulename is not given
             modobj = obj.secNode.get_module(modulename)
             if not modobj:
